@@ -262,6 +262,30 @@ func (d *SimDA) submit(ctx context.Context, by string, epoch int, blobs [][]byte
 		return nil, err
 	}
 	d.mu.Lock()
+	// size limit, with the semantics of the repo's own DA implementations (DummyDA, local-da): blobs are
+	// taken in order until the next one does not fit any more; meeting a blob that alone exceeds the limit
+	// before that point fails the whole call. The size check is a function of the input alone and comes
+	// first (it does not consume a scripted outcome).
+	fit := len(blobs)
+	if d.MaxBlobBytes > 0 {
+		var sz uint64
+		fit = 0
+		for _, b := range blobs {
+			if uint64(len(b)) > d.MaxBlobBytes {
+				cp := make([][]byte, len(blobs))
+				copy(cp, blobs)
+				d.Stats["submit:too-big(single blob over limit)"]++
+				d.logCall(DACall{Op: "submit", By: by, Epoch: epoch, Blobs: cp, Outcome: "too-big(single blob over limit)"})
+				d.mu.Unlock()
+				return nil, coreda.ErrBlobSizeOverLimit
+			}
+			if sz+uint64(len(b)) > d.MaxBlobBytes {
+				break
+			}
+			sz += uint64(len(b))
+			fit++
+		}
+	}
 	out := SubmitOutcome{Kind: SubAccept, Advance: d.AutoAdvance}
 	if len(d.SubmitScript) > 0 {
 		out = d.SubmitScript[0]
@@ -288,22 +312,10 @@ func (d *SimDA) submit(ctx context.Context, by string, epoch int, blobs [][]byte
 		}
 		call.Accepted = n
 		call.IDs = ids
-		if out.Advance {
+		if out.Advance && n > 0 {
 			d.cur++
 		}
 		return ids
-	}
-	fit := len(blobs)
-	if d.MaxBlobBytes > 0 {
-		var sz uint64
-		fit = 0
-		for _, b := range blobs {
-			if sz+uint64(len(b)) > d.MaxBlobBytes {
-				break
-			}
-			sz += uint64(len(b))
-			fit++
-		}
 	}
 	var ids [][]byte
 	var err error
@@ -320,14 +332,12 @@ func (d *SimDA) submit(ctx context.Context, by string, epoch int, blobs [][]byte
 			}
 		}
 	case SubPrefix:
+		// a function of what fits (not of the input length, which a size-trimming client changes): 1..fit-1
 		n := out.N
-		if len(blobs) <= 1 {
-			n = len(blobs)
-		} else {
-			n = 1 + n%(len(blobs)-1) // 1..len-1
-		}
-		if n > fit {
+		if fit <= 1 {
 			n = fit
+		} else {
+			n = 1 + n%(fit-1)
 		}
 		if n == 0 {
 			err = coreda.ErrBlobSizeOverLimit
